@@ -23,6 +23,16 @@ namespace Ens.Masked
 inductive Err | shapeMismatch | dataInvalid | assertion | valueError
   deriving Repr, DecidableEq
 
+/-- the value of a successful call (for stating concrete instances) -/
+def ok? {α} : Except Err α → Option α
+  | .ok a => some a
+  | .error _ => none
+
+/-- the error kind of a failed call -/
+def err? {α} : Except Err α → Option Err
+  | .ok _ => none
+  | .error e => some e
+
 /-! ## (i) masked element-wise operation -/
 
 /-- Cells of the output buffer after a masked operation: `f args[i]` where the mask is true,
